@@ -37,6 +37,14 @@ class MarkedError(Exception):
     pass
 
 
+def make_exc(rec_, text):
+    """the raised exception is a plain Exception or (every other behaviour) an HTTPException: both must unwind alike"""
+    if rec_.get('_http_exc'):
+        from clastic.errors import NotFound
+        return NotFound(text)
+    return MarkedError(text)
+
+
 def build(rec_, R):
     """returns app, path"""
     from clastic import Application, Route, Response
@@ -65,7 +73,7 @@ def build(rec_, R):
             kind = plan['k'] if (k, ph) == pf else 'none'
             R.events.append(['enter', f, 'none', [0, 0]])
             if kind == 'raiseBefore':
-                e = R.mark(MarkedError('raised by %r' % (f,)), 'exc', f)
+                e = R.mark(make_exc(rec_, 'raised by %r' % (f,)), 'exc', f)
                 R.events.append(['raise', f, 'exc', f])
                 raise e
             if kind == 'short':
@@ -83,7 +91,7 @@ def build(rec_, R):
                 R.events.append(['raise', f, lk, lb])
                 raise
             if kind == 'raiseAfter':
-                e = R.mark(MarkedError('raised after by %r' % (f,)), 'exc', f)
+                e = R.mark(make_exc(rec_, 'raised after by %r' % (f,)), 'exc', f)
                 R.events.append(['raise', f, 'exc', f])
                 raise e
             lk, lb = R.label(ret)
@@ -91,16 +99,42 @@ def build(rec_, R):
             return ret
         return fn
 
+    shared = {}
+    share_instances = bool(rec_.get('_share'))
+
+    def make_fn_multi(labels_ref, ph):
+        """one function object serving several chain positions (a non-unique middleware INSTANCE listed at several
+        levels): entries nest in chain order, so the n-th active entry is the n-th position"""
+        state = {'active': 0}
+
+        def fn(self, next):
+            labels = sorted(labels_ref, key=lambda lab: chainpos.get(lab, 10 ** 6))
+            idx = state['active']
+            state['active'] += 1
+            try:
+                label = labels[idx] if idx < len(labels) else (-1, -1)
+                return make_fn(label, ph)(self, next)
+            finally:
+                state['active'] -= 1
+        return fn
+
     def make_mw(m, lvl, i):
         base = cls_for(m['t'])
-        attrs = {}
-        for ph in m['ph']:
-            attrs[PHASE[ph]] = make_fn((lvl, i), ph)
-        # a per-instance subclass would break type equality; attach functions on a subclass that
-        # compares equal by type NAME class -> keep one class per type and bind functions per instance
+        key = (m['t'], tuple(m['ph']))
+        if share_instances and m['t'] == 'N':
+            if key in shared:
+                inst, labels = shared[key]
+                labels.append((lvl, i))
+                return inst
+            inst = base()
+            labels = [(lvl, i)]
+            shared[key] = (inst, labels)
+            for ph in m['ph']:
+                setattr(inst, PHASE[ph], make_fn_multi(labels, ph).__get__(inst, base))
+            return inst
         inst = base()
-        for name, fn in attrs.items():
-            setattr(inst, name, fn.__get__(inst, base))
+        for ph in m['ph']:
+            setattr(inst, PHASE[ph], make_fn((lvl, i), ph).__get__(inst, base))
         return inst
 
     outer = [make_mw(m, 1, i + 1) for i, m in enumerate(rec_['outer'])]
@@ -112,7 +146,7 @@ def build(rec_, R):
     def endpoint():
         R.events.append(['enter', EP, 'none', [0, 0]])
         if (pf == (0, 2) and plan['k'] == 'raiseBefore') or rec_['epKind'] == 'raise':
-            e = R.mark(MarkedError('endpoint'), 'exc', EP)
+            e = R.mark(make_exc(rec_, 'endpoint'), 'exc', EP)
             R.events.append(['raise', EP, 'exc', EP])
             raise e
         if rec_['epKind'] == 'response':
@@ -126,7 +160,7 @@ def build(rec_, R):
     def render(context):
         R.events.append(['enter', RN, 'none', [0, 0]])
         if pf == (0, 3) and plan['k'] == 'raiseBefore':
-            e = R.mark(MarkedError('render'), 'exc', RN)
+            e = R.mark(make_exc(rec_, 'render'), 'exc', RN)
             R.events.append(['raise', RN, 'exc', RN])
             raise e
         r = R.mark(Response('rendered'), 'resp', RN)
@@ -142,11 +176,11 @@ def build(rec_, R):
     return app, '/sub/x'
 
 
-def run_one(rec_, direct=False):
+def run_one(rec_, direct=False, share=False, http_exc=False):
     from werkzeug.test import Client
     from werkzeug.wrappers import BaseResponse
     R = Rec()
-    rec_ = dict(rec_, _direct=direct)
+    rec_ = dict(rec_, _direct=direct, _share=share, _http_exc=http_exc)
     app, path = build(rec_, R)
     cl = Client(app, BaseResponse)
     resp = cl.get(path)
@@ -212,7 +246,8 @@ def check(run):
     for n, (key, b) in enumerate(uniq):
         exp = expected_events(b)
         direct = (n % 2 == 0)
-        obs, status = run_one(b, direct=direct)
+        share, http_exc = (n % 3 == 1), (n % 4 >= 2)
+        obs, status = run_one(b, direct=direct, share=share, http_exc=http_exc)
         run.evaluations += 1
         if len(b['chain']) >= 2 or b['plan']['k'] != 'none':
             run.nontrivial.add(key)
@@ -224,7 +259,8 @@ def check(run):
             k, a, bb = d
             run.violation(classify(exp, obs, k, a, bb),
                           'event %d: spec %r, implementation %r (plan %r)' % (k, a, bb, b['plan']),
-                          {'leg': 'L2', 'behaviour': b, 'observed': obs, 'direct': direct, 'first_diff': [k, a, bb]})
+                          {'leg': 'L2', 'behaviour': b, 'observed': obs, 'direct': direct, 'share': share, 'http_exc': http_exc,
+                           'first_diff': [k, a, bb]})
         else:
             run.violation('final-status', 'final value %r but status %s' % (b['final'], status),
                           {'leg': 'L2', 'behaviour': b, 'observed': obs, 'direct': direct})
@@ -237,7 +273,7 @@ def replay(run, path):
     with open(path) as f:
         rp = json.load(f)
     c = rp['case']
-    obs, status = run_one(c['behaviour'], direct=c.get('direct', False))
+    obs, status = run_one(c['behaviour'], direct=c.get('direct', False), share=c.get('share', False), http_exc=c.get('http_exc', False))
     exp = expected_events(c['behaviour'])
     d = first_diff(exp, obs)
     print('expected:', exp)
